@@ -271,11 +271,24 @@ func genPco(g *Gen, w *bufio.Writer) {
 		}
 		return fmt.Sprintf("%d:%d:%s", id, ln, hexs(g.Bytes(n)))
 	}
+	// every container identifier of the TS 24.008 10.5.6.3 lists (0x0001..0x0040) and the configuration protocol identifiers, each
+	// with empty, short and 255-octet contents, alone and behind / before another unit: handling keyed on one identifier
+	for _, id := range append([]int{0x8021, 0xc021, 0xc023, 0xc223, 0x0000, 0xfffe, 0xffff}, seqInts(1, 0x40)...) {
+		for _, n := range []int{0, 1, 2, 4, 16, 255} {
+			u := fmt.Sprintf("%d:%d:%s", id, n, hexs(g.Bytes(n)))
+			fmt.Fprintf(w, "pcomar %s\n", u)
+			fmt.Fprintf(w, "pcomar %s;%s\n", u, unit(true))
+			fmt.Fprintf(w, "pcomar %s;%s;%s\n", unit(true), u, u)
+		}
+	}
 	for i := 0; i < g.N; i++ {
 		k := g.Intn(6)
 		var us []string
 		for j := 0; j < k; j++ {
 			us = append(us, unit(i%4 != 3))
+		}
+		if k >= 2 && g.Intn(4) == 0 { // a repeated unit (same identifier, same or no contents), adjacent or apart
+			us = append(us, us[g.Intn(k)])
 		}
 		s := "-"
 		if len(us) > 0 {
@@ -313,4 +326,12 @@ func genPco(g *Gen, w *bufio.Writer) {
 			fmt.Fprintf(w, "pcounm %s\n", hexs(g.Bytes(g.Intn(24))))
 		}
 	}
+}
+
+func seqInts(lo, hi int) []int {
+	var out []int
+	for i := lo; i <= hi; i++ {
+		out = append(out, i)
+	}
+	return out
 }
